@@ -576,15 +576,23 @@ func (m *ParamLab) OnFault(w *engine.World, f engine.Fault) {
 				a.Module, storedStr, sdk.MsgTypeURL(msg), po.text, do.class, do.text)
 		}
 	}
-	pb := runBlockHooks(n, pctx)
-	db := runBlockHooks(n, dctx)
-	if pb.class != "panic" {
-		// a second block, a jump in block time later: limit windows roll over
-		jump := []time.Duration{5 * time.Second, time.Hour, 40 * 24 * time.Hour}[int(engine.Mix(w.Seed, "labjump", uint64(n.Height))%3)]
-		pb2 := runBlockHooks(n, pctx.WithBlockHeight(n.Height+2).WithBlockTime(n.Time.Add(5*time.Second+jump)))
-		db2 := runBlockHooks(n, dctx.WithBlockHeight(n.Height+2).WithBlockTime(n.Time.Add(5*time.Second+jump)))
-		if pb2.class == "panic" {
-			pb, db = pb2, db2
+	// the next blocks on both branches: objects fall due (requests expire, batches start,
+	// contracts expire, pools end) under the stored set; one of the steps is a jump in block
+	// time so that limit windows roll over
+	var pb, db outcome
+	jumpAt := 1 + int(engine.Mix(w.Seed, "labjump", uint64(n.Height))%4)
+	jump := []time.Duration{5 * time.Second, time.Hour, 40 * 24 * time.Hour}[int(engine.Mix(w.Seed, "labjumpsize", uint64(n.Height))%3)]
+	t := n.Time
+	for k := int64(1); k <= 14; k++ {
+		t = t.Add(5 * time.Second)
+		if int(k) == jumpAt {
+			t = t.Add(jump)
+		}
+		pb = runBlockHooks(n, pctx.WithBlockHeight(n.Height+k).WithBlockTime(t))
+		db = runBlockHooks(n, dctx.WithBlockHeight(n.Height+k).WithBlockTime(t))
+		w.Hit("C16.branch_blocks")
+		if pb.class == "panic" || db.class == "panic" {
+			break
 		}
 	}
 	w.Hit("C16.differential_blocks")
